@@ -19,15 +19,24 @@ an arbitrary capacity `m ≥ 1` and an arbitrary first copy identity `base`.
   have equal fitness) only for `best_of_seen`, which is false without it (`best_of_seen_needs_fit`);
   `pf_antichain` needs only equal numbers of objectives; `pf_exact` needs `PfHyp` (`SimBase` + equal
   numbers of objectives).  Transitivity of the similarity is never needed.
-* `copies_fresh` / `copies_frame` / `pf_copies` are true by construction of the model (`insert`
-  allocates a fresh id): they state what "deep copy" means for the model; that DEAP's `deepcopy`
-  call really yields such an object is checked by the harness oracle, not proved here.
+* `copies_fresh` / `copies_frame` / `pf_copies` are true by construction of the pure model (`insert`
+  allocates a fresh id): they state what "deep copy" means for that model.  The deep-copy clause itself is
+  proved in the last section for the *heap-level* archive `Core/ArchiveHeap.lean`, whose `insert` is
+  `copy.deepcopy` as modelled (and proved faithful and disjoint) for C16 in `Core/Heap.lean`:
+  `hof_members_fresh` / `pf_members_fresh` (every member reaches only objects allocated by the archive's
+  own `deepcopy` call for it, or immutable ones), `hof_unaffected_by_writes` / `pf_unaffected_by_writes`
+  (no sequence of in-place modifications of the caller's objects, interleaved with further updates,
+  changes what a member denotes; `keys` are the members' own fitness objects), and
+  `heap_hof_refines` / `heap_pf_refines` (the heap-level archive denotes, after every history, the pure
+  archive run on the individuals as they were when shown — so every theorem above transfers,
+  e.g. `heap_hof_best_of_seen`, `heap_pf_exact`).
   The structural theorems (`mirror`, `sorted_desc`, `size_le`, `worst_monotone`, `members_shown`,
   `copies_*`, `never_raises`) hold for *every* similarity operator.
 * `insert` runs CPython's binary search; `C08L.bisectRight_eq` proves it equal to the linear scan on
   the (always ascending) key list.
 -/
 import DeapModel.Lemmas.C08Worst
+import DeapModel.Lemmas.C08HeapProps
 
 set_option linter.unusedSectionVars false
 set_option linter.unusedSimpArgs false
@@ -387,5 +396,365 @@ example : ∃ h, pfRun genomeEq (empty 0 100) exHist = some h ∧
   exact ⟨h, hr, pf_antichain hh.len hr, pf_no_twins hh.len hh.toSimSym hr⟩
 
 end Examples
+
+/-! ## The archive in the object heap: members are deep copies
+
+Model: `Core/ArchiveHeap.lean` (`insert` = `Heap.clone` + the list bookkeeping; `keys` / `items` hold object
+ids; every read goes through the heap).  A history is a list of events: `upd` (an `update` call), `write`
+(an in-place modification of an object of the caller), `alloc` (a new object of the caller).
+`Valid` says what the caller may do (`C08H.EvOK`): show individuals that `deepcopy` can copy and that have a
+`fitness`, and write to / refer to objects outside the archive's own allocations only.  The copy mechanism
+is C16's (`Heap.Copy.clone_facts`: the clone denotes the same pure value and is made of new objects and
+immutable old ones). -/
+
+section HeapLevel
+open ArchiveHeap C08H Heap
+
+variable {P : Params α} {pf : Bool} {cap next0 : Nat} {objs0 : Oid → Option Obj} {evs evs₂ : List Ev}
+  {st st₂ : HState}
+
+/-- Refinement (hall of fame): after every admissible history the heap-level archive denotes (`Rel`: same
+capacity, `keys` hold the same fitness values, members have the same pure values and fitnesses) the pure
+archive of `Core/Archive.lean` run on the populations *as they were when shown*; neither side raises
+unless the other does. -/
+theorem heap_hof_refines (hsim : SimErase P.sim) (hct : CTOk P.ct) (hcl : Closed objs0 next0) (b : Nat)
+    (hv : Valid P false (emptyH cap objs0 next0) evs) :
+    (∀ st, runH P false (emptyH cap objs0 next0) evs = some st →
+      ∃ hp, run P.sim (empty cap b) (histOf P false (emptyH cap objs0 next0) evs) = some hp ∧ Rel P st hp) ∧
+    (∀ hp, run P.sim (empty cap b) (histOf P false (emptyH cap objs0 next0) evs) = some hp →
+      ∃ st, runH P false (emptyH cap objs0 next0) evs = some st ∧ Rel P st hp) := by
+  have := run_from_empty hsim hct false hcl cap b evs hv
+  rw [pureRun_false] at this
+  constructor
+  · intro st hr
+    rw [hr] at this
+    cases hq : run P.sim (empty cap b) (histOf P false (emptyH cap objs0 next0) evs) with
+    | none => rw [hq] at this; exact this.elim
+    | some hp => rw [hq] at this; exact ⟨hp, rfl, this.2.1⟩
+  · intro hp hq
+    rw [hq] at this
+    cases hr : runH P false (emptyH cap objs0 next0) evs with
+    | none => rw [hr] at this; exact this.elim
+    | some st => rw [hr] at this; exact ⟨st, rfl, this.2.1⟩
+
+/-- Refinement (Pareto archive). -/
+theorem heap_pf_refines (hsim : SimErase P.sim) (hct : CTOk P.ct) (hcl : Closed objs0 next0) (b : Nat)
+    (hv : Valid P true (emptyH cap objs0 next0) evs) :
+    (∀ st, runH P true (emptyH cap objs0 next0) evs = some st →
+      ∃ hp, pfRun P.sim (empty cap b) (histOf P true (emptyH cap objs0 next0) evs) = some hp ∧ Rel P st hp) ∧
+    (∀ hp, pfRun P.sim (empty cap b) (histOf P true (emptyH cap objs0 next0) evs) = some hp →
+      ∃ st, runH P true (emptyH cap objs0 next0) evs = some st ∧ Rel P st hp) := by
+  have := run_from_empty hsim hct true hcl cap b evs hv
+  rw [pureRun_true] at this
+  constructor
+  · intro st hr
+    rw [hr] at this
+    cases hq : pfRun P.sim (empty cap b) (histOf P true (emptyH cap objs0 next0) evs) with
+    | none => rw [hq] at this; exact this.elim
+    | some hp => rw [hq] at this; exact ⟨hp, rfl, this.2.1⟩
+  · intro hp hq
+    rw [hq] at this
+    cases hr : runH P true (emptyH cap objs0 next0) evs with
+    | none => rw [hr] at this; exact this.elim
+    | some st => rw [hr] at this; exact ⟨st, rfl, this.2.1⟩
+
+/-- No admissible history makes the heap-level archive raise (capacity ≥ 1; any capacity for the Pareto
+archive): `deepcopy` succeeds on every submitted individual, `self[-1]` / `remove` stay in range. -/
+theorem heap_never_raises (hsim : SimErase P.sim) (hct : CTOk P.ct) (hcl : Closed objs0 next0)
+    (hcap : pf = false → 1 ≤ cap) (hv : Valid P pf (emptyH cap objs0 next0) evs) :
+    ∃ st, runH P pf (emptyH cap objs0 next0) evs = some st := by
+  cases pf with
+  | false =>
+    obtain ⟨hp, hq⟩ := never_raises P.sim (hcap rfl) 0 (histOf P false (emptyH cap objs0 next0) evs)
+    obtain ⟨st, hr, _⟩ := (heap_hof_refines hsim hct hcl 0 hv).2 hp hq
+    exact ⟨st, hr⟩
+  | true =>
+    obtain ⟨hp, hq⟩ := pf_never_raises P.sim cap 0 (histOf P true (emptyH cap objs0 next0) evs)
+    obtain ⟨st, hr, _⟩ := (heap_pf_refines hsim hct hcl 0 hv).2 hp hq
+    exact ⟨st, hr⟩
+
+/-- Members are deep copies, for either kind of archive (`pf`).  After every admissible history:
+1. `log` lists oid ranges allocated after the archive was created, one after the other (pairwise disjoint) —
+   by definition of `insertH` each is what one `deepcopy` call of the archive allocated;
+2. every member is the first object of a range of its own, and everything reachable from it lies in that
+   range or is immutable (a GP node object, which `PrimitiveTree.__deepcopy__` shares); members are
+   pairwise different objects;
+3. nothing reachable from an individual that was ever submitted lies in any of the ranges;
+4. hence no mutable object is reachable both from a member and from a submitted individual, or from two
+   members. -/
+theorem archive_members_fresh (hsim : SimErase P.sim) (hct : CTOk P.ct) (hcl : Closed objs0 next0)
+    (hv : Valid P pf (emptyH cap objs0 next0) evs) (hr : runH P pf (emptyH cap objs0 next0) evs = some st) :
+    (∀ r ∈ st.log, next0 ≤ r.1 ∧ r.1 < r.2 ∧ r.2 ≤ st.next) ∧ st.log.Pairwise (fun r s => r.2 ≤ s.1) ∧
+    (∀ x ∈ st.items, ∃ hi, (x, hi) ∈ st.log ∧
+      ∀ y, Reach st.objs (.ref x) y → (x ≤ y ∧ y < hi) ∨ Imm st.objs y) ∧
+    st.items.Nodup ∧
+    (∀ s ∈ submittedOf evs, ∀ y, Reach st.objs (.ref s) y → ¬ InLog st.log y) ∧
+    (∀ x ∈ st.items, ∀ s ∈ submittedOf evs, ∀ y o, Reach st.objs (.ref x) y → Reach st.objs (.ref s) y →
+      st.objs y = some o → o.mutable = false) ∧
+    (∀ i j : Nat, i < j → ∀ xi xj, st.items[i]? = some xi → st.items[j]? = some xj →
+      ∀ y o, Reach st.objs (.ref xi) y → Reach st.objs (.ref xj) y → st.objs y = some o →
+        o.mutable = false) := by
+  obtain ⟨_, _, hI, _, hsub⟩ := inv_of_run hsim hct pf hcl cap evs hv hr
+  exact members_fresh_of_inv hI _ hsub
+
+/-- … for the hall of fame … -/
+theorem hof_members_fresh (hsim : SimErase P.sim) (hct : CTOk P.ct) (hcl : Closed objs0 next0)
+    (hv : Valid P false (emptyH cap objs0 next0) evs)
+    (hr : runH P false (emptyH cap objs0 next0) evs = some st) :
+    (∀ x ∈ st.items, ∃ hi, (x, hi) ∈ st.log ∧ next0 ≤ x ∧
+      ∀ y, Reach st.objs (.ref x) y → (x ≤ y ∧ y < hi) ∨ Imm st.objs y) ∧
+    (∀ x ∈ st.items, ∀ s ∈ submittedOf evs, ∀ y o, Reach st.objs (.ref x) y → Reach st.objs (.ref s) y →
+      st.objs y = some o → o.mutable = false) ∧
+    (∀ i j : Nat, i < j → ∀ xi xj, st.items[i]? = some xi → st.items[j]? = some xj →
+      ∀ y o, Reach st.objs (.ref xi) y → Reach st.objs (.ref xj) y → st.objs y = some o →
+        o.mutable = false) := by
+  obtain ⟨h1, _, h3, _, _, h6, h7⟩ := archive_members_fresh hsim hct hcl hv hr
+  refine ⟨fun x hx => ?_, h6, h7⟩
+  obtain ⟨hi, hm, hreach⟩ := h3 x hx
+  exact ⟨hi, hm, (h1 _ hm).1, hreach⟩
+
+/-- … and for the Pareto archive. -/
+theorem pf_members_fresh (hsim : SimErase P.sim) (hct : CTOk P.ct) (hcl : Closed objs0 next0)
+    (hv : Valid P true (emptyH cap objs0 next0) evs)
+    (hr : runH P true (emptyH cap objs0 next0) evs = some st) :
+    (∀ x ∈ st.items, ∃ hi, (x, hi) ∈ st.log ∧ next0 ≤ x ∧
+      ∀ y, Reach st.objs (.ref x) y → (x ≤ y ∧ y < hi) ∨ Imm st.objs y) ∧
+    (∀ x ∈ st.items, ∀ s ∈ submittedOf evs, ∀ y o, Reach st.objs (.ref x) y → Reach st.objs (.ref s) y →
+      st.objs y = some o → o.mutable = false) ∧
+    (∀ i j : Nat, i < j → ∀ xi xj, st.items[i]? = some xi → st.items[j]? = some xj →
+      ∀ y o, Reach st.objs (.ref xi) y → Reach st.objs (.ref xj) y → st.objs y = some o →
+        o.mutable = false) := by
+  obtain ⟨h1, _, h3, _, _, h6, h7⟩ := archive_members_fresh hsim hct hcl hv hr
+  refine ⟨fun x hx => ?_, h6, h7⟩
+  obtain ⟨hi, hm, hreach⟩ := h3 x hx
+  exact ⟨hi, hm, (h1 _ hm).1, hreach⟩
+
+/-- Unaffected by later changes to the populations, for either kind of archive.  Let `st` be the archive
+after an admissible history `evs` and `st₂` the archive after any admissible continuation `evs₂` — heap
+writes through the caller's objects (in-place genome edits, `fitness.values = …`, `del fitness.values`,
+attribute edits, new objects) interleaved with further updates.  Then
+1. every member of `st` that is still a member denotes, at every depth, the pure value (genome, nested
+   mutables, attributes, fitness) it denoted in `st`;
+2. `keys[j] is items[n-1-j].fitness` (the key objects are the members' own fitness objects, not the
+   caller's), and therefore
+3. `keys[j].wvalues = items[n-1-j].fitness.wvalues` in the heap as it is now;
+4. if the continuation contains no `update` at all, the archive has the same members and keys and denotes
+   the same pure archive as before. -/
+theorem archive_unaffected_by_writes (hsim : SimErase P.sim) (hct : CTOk P.ct) (hcl : Closed objs0 next0)
+    (hv : Valid P pf (emptyH cap objs0 next0) (evs ++ evs₂))
+    (hr : runH P pf (emptyH cap objs0 next0) evs = some st) (hr₂ : runH P pf st evs₂ = some st₂) :
+    (∀ x ∈ st.items, x ∈ st₂.items → ∀ d, Heap.abs st₂.objs d (.ref x) = Heap.abs st.objs d (.ref x)) ∧
+    st₂.keys.map some = (st₂.items.map (instFit P st₂.objs)).reverse ∧
+    st₂.keys.map (fun k => some (fitAt P st₂.objs k))
+      = (st₂.items.map (fun x => (viewInd P st₂.objs x).map (·.fit))).reverse ∧
+    (CallerOnly evs₂ → st₂.items = st.items ∧ st₂.keys = st.keys ∧ ∀ hp, Rel P st hp → Rel P st₂ hp) := by
+  obtain ⟨hp, _, hI, hR, _⟩ := inv_of_run hsim hct pf hcl cap evs hv.left hr
+  have hv₂ := hv.right hr
+  obtain ⟨hI₂, hS, hco⟩ := continuation_facts hsim hct pf hI hR hv₂ hr₂
+  refine ⟨hS, hI₂.keyof, value_mirror_of_inv hI₂, fun hc => ?_⟩
+  obtain ⟨e1, e2, _⟩ := hco hc
+  exact ⟨e1, e2, fun hp' hR' => ((continuation_facts hsim hct pf hI hR' hv₂ hr₂).2.2 hc).2.2⟩
+
+/-- … for the hall of fame … -/
+theorem hof_unaffected_by_writes (hsim : SimErase P.sim) (hct : CTOk P.ct) (hcl : Closed objs0 next0)
+    (hv : Valid P false (emptyH cap objs0 next0) (evs ++ evs₂))
+    (hr : runH P false (emptyH cap objs0 next0) evs = some st) (hr₂ : runH P false st evs₂ = some st₂) :
+    (∀ x ∈ st.items, x ∈ st₂.items → ∀ d, Heap.abs st₂.objs d (.ref x) = Heap.abs st.objs d (.ref x)) ∧
+    st₂.keys.map some = (st₂.items.map (instFit P st₂.objs)).reverse ∧
+    st₂.keys.map (fun k => some (fitAt P st₂.objs k))
+      = (st₂.items.map (fun x => (viewInd P st₂.objs x).map (·.fit))).reverse ∧
+    (CallerOnly evs₂ → st₂.items = st.items ∧ st₂.keys = st.keys ∧ ∀ hp, Rel P st hp → Rel P st₂ hp) :=
+  archive_unaffected_by_writes hsim hct hcl hv hr hr₂
+
+/-- … and for the Pareto archive. -/
+theorem pf_unaffected_by_writes (hsim : SimErase P.sim) (hct : CTOk P.ct) (hcl : Closed objs0 next0)
+    (hv : Valid P true (emptyH cap objs0 next0) (evs ++ evs₂))
+    (hr : runH P true (emptyH cap objs0 next0) evs = some st) (hr₂ : runH P true st evs₂ = some st₂) :
+    (∀ x ∈ st.items, x ∈ st₂.items → ∀ d, Heap.abs st₂.objs d (.ref x) = Heap.abs st.objs d (.ref x)) ∧
+    st₂.keys.map some = (st₂.items.map (instFit P st₂.objs)).reverse ∧
+    st₂.keys.map (fun k => some (fitAt P st₂.objs k))
+      = (st₂.items.map (fun x => (viewInd P st₂.objs x).map (·.fit))).reverse ∧
+    (CallerOnly evs₂ → st₂.items = st.items ∧ st₂.keys = st.keys ∧ ∀ hp, Rel P st hp → Rel P st₂ hp) :=
+  archive_unaffected_by_writes hsim hct hcl hv hr hr₂
+
+/-- What a member denotes is what a submitted individual denoted *when it was shown* (not what that
+individual became later): its pure value and fitness are those of an entry of the history as the archive
+saw it. -/
+theorem heap_members_shown (hsim : SimErase P.sim) (hct : CTOk P.ct) (hcl : Closed objs0 next0)
+    (hcap : pf = false → 1 ≤ cap) (hv : Valid P pf (emptyH cap objs0 next0) evs)
+    (hr : runH P pf (emptyH cap objs0 next0) evs = some st) :
+    ∀ x ∈ st.items, ∃ vx, viewInd P st.objs x = some vx ∧
+      ∃ v ∈ (histOf P pf (emptyH cap objs0 next0) evs).flatten, vx.genome = v.genome ∧ vx.fit = v.fit := by
+  intro x hx
+  cases pf with
+  | false =>
+    obtain ⟨hp, hq, hR⟩ := (heap_hof_refines hsim hct hcl 0 hv).1 st hr
+    obtain ⟨it, hit, vx, hvx, e⟩ := hR.mem_of_heap hx
+    obtain ⟨v, hv', e'⟩ := members_shown P.sim (hcap rfl) hq it hit
+    exact ⟨vx, hvx, v, hv', (congrArg Prod.fst e).trans e'.1, (congrArg Prod.snd e).trans e'.2⟩
+  | true =>
+    obtain ⟨hp, hq, hR⟩ := (heap_pf_refines hsim hct hcl 0 hv).1 st hr
+    obtain ⟨it, hit, vx, hvx, e⟩ := hR.mem_of_heap hx
+    obtain ⟨v, hv', e'⟩ := (pf_str P.sim hq).origin it hit
+    exact ⟨vx, hvx, v, hv', (congrArg Prod.fst e).trans e'.1, (congrArg Prod.snd e).trans e'.2⟩
+
+/-! ### The statement's clauses transferred to the heap-level archive -/
+
+/-- Order and capacity at heap level: members are best first by the fitness values their own fitness
+objects hold now, at most `cap` of them. -/
+theorem heap_hof_order (hsim : SimErase P.sim) (hct : CTOk P.ct) (hcl : Closed objs0 next0) (hcap : 1 ≤ cap)
+    (hv : Valid P false (emptyH cap objs0 next0) evs)
+    (hr : runH P false (emptyH cap objs0 next0) evs = some st) :
+    st.items.length ≤ cap ∧
+    st.items.Pairwise (fun a b => ∀ va vb, viewInd P st.objs a = some va → viewInd P st.objs b = some vb →
+      vb.fit.wvalues ≤ va.fit.wvalues) := by
+  obtain ⟨hp, hq, hR⟩ := (heap_hof_refines hsim hct hcl 0 hv).1 st hr
+  refine ⟨by rw [hR.len]; exact size_le P.sim hcap hq, ?_⟩
+  exact hR.pairwise (fun a b => b.2.wvalues ≤ a.2.wvalues) (sorted_desc P.sim hcap hq)
+
+/-- Best of everything seen, at heap level: every individual ever shown (as it was when shown) is similar
+to a member (as it is now), or the archive is full and the individual is not strictly better than the
+worst member. -/
+theorem heap_hof_best_of_seen (hct : CTOk P.ct) (hcl : Closed objs0 next0) (hcap : 1 ≤ cap)
+    (hv : Valid P false (emptyH cap objs0 next0) evs)
+    (hh : SimHyp P.sim (histOf P false (emptyH cap objs0 next0) evs).flatten)
+    (hr : runH P false (emptyH cap objs0 next0) evs = some st) :
+    ∀ v ∈ (histOf P false (emptyH cap objs0 next0) evs).flatten,
+      (∃ x ∈ st.items, ∃ vx, viewInd P st.objs x = some vx ∧ P.sim v vx = true) ∨
+      (st.items.length = cap ∧ ∀ w, st.items.getLast? = some w →
+        ∀ vw, viewInd P st.objs w = some vw → ¬ (vw.fit.wvalues < v.fit.wvalues)) := by
+  have hsim : SimErase P.sim := simErase_of_same hh.same
+  obtain ⟨hp, hq, hR⟩ := (heap_hof_refines hsim hct hcl 0 hv).1 st hr
+  intro v hv'
+  rcases best_of_seen hcap hh hq v hv' with ⟨it, hit, hs⟩ | ⟨hl, hw⟩
+  · left
+    obtain ⟨x, hx, vx, hvx, e⟩ := hR.mem_of_pure hit
+    exact ⟨x, hx, vx, hvx, by rw [hsim v v vx it rfl e]; exact hs⟩
+  · right
+    refine ⟨by rw [hR.len]; exact hl, fun w hw' vw hvw => ?_⟩
+    obtain ⟨it, hit, vw', hvw', e⟩ := hR.last hw'
+    rw [hvw] at hvw'
+    cases hvw'
+    have : vw.fit = it.fit := congrArg Prod.snd e
+    rw [this]
+    exact hw it hit
+
+/-- Pareto exactness at heap level: (a) every member has the pure value and fitness of a shown individual
+that no shown fitness dominates; (b) every shown individual that no shown fitness dominates has a member with
+equal fitness similar to it; (c) no two members have equal fitness and are similar; (d) members are kept in
+lexicographic fitness order. -/
+theorem heap_pf_exact {n : Nat} (hct : CTOk P.ct) (hcl : Closed objs0 next0)
+    (hv : Valid P true (emptyH cap objs0 next0) evs)
+    (hh : PfHyp P.sim n (histOf P true (emptyH cap objs0 next0) evs).flatten)
+    (hr : runH P true (emptyH cap objs0 next0) evs = some st) :
+    (∀ x ∈ st.items, ∃ vx, viewInd P st.objs x = some vx ∧
+      ∃ v ∈ (histOf P true (emptyH cap objs0 next0) evs).flatten, (vx.genome = v.genome ∧ vx.fit = v.fit) ∧
+        ∀ y ∈ (histOf P true (emptyH cap objs0 next0) evs).flatten, dom y.fit v.fit = false) ∧
+    (∀ v ∈ (histOf P true (emptyH cap objs0 next0) evs).flatten,
+      (∀ y ∈ (histOf P true (emptyH cap objs0 next0) evs).flatten, dom y.fit v.fit = false) →
+      ∃ x ∈ st.items, ∃ vx, viewInd P st.objs x = some vx ∧ vx.fit = v.fit ∧ P.sim v vx = true) ∧
+    st.items.Pairwise (fun a b => ∀ va vb, viewInd P st.objs a = some va → viewInd P st.objs b = some vb →
+      ¬ (va.fit = vb.fit ∧ P.sim va vb = true)) ∧
+    st.items.Pairwise (fun a b => ∀ va vb, viewInd P st.objs a = some va → viewInd P st.objs b = some vb →
+      vb.fit.wvalues ≤ va.fit.wvalues) := by
+  have hsim : SimErase P.sim := simErase_of_same hh.same
+  obtain ⟨hp, hq, hR⟩ := (heap_pf_refines hsim hct hcl 0 hv).1 st hr
+  obtain ⟨ha, hb, hc⟩ := pf_exact hh hq
+  refine ⟨fun x hx => ?_, fun v hv' hnd => ?_, ?_, ?_⟩
+  · obtain ⟨it, hit, vx, hvx, e⟩ := hR.mem_of_heap hx
+    obtain ⟨v, hv', e', hnd⟩ := ha it hit
+    exact ⟨vx, hvx, v, hv', ⟨(congrArg Prod.fst e).trans e'.1, (congrArg Prod.snd e).trans e'.2⟩, hnd⟩
+  · obtain ⟨it, hit, hf, hs⟩ := hb v hv' hnd
+    obtain ⟨x, hx, vx, hvx, e⟩ := hR.mem_of_pure hit
+    exact ⟨x, hx, vx, hvx, (congrArg Prod.snd e).trans hf, by rw [hsim v v vx it rfl e]; exact hs⟩
+  · have := hR.pairwise (fun a b => ∀ ia ib : Ind PV α, C08H.erase ia = a → C08H.erase ib = b →
+        ¬ (ia.fit = ib.fit ∧ P.sim ia ib = true))
+      (hc.imp (fun {a b} hab ia ib ea eb hcon => hab ⟨by
+          have h1 : ia.fit = a.fit := congrArg Prod.snd ea
+          have h2 : ib.fit = b.fit := congrArg Prod.snd eb
+          rw [← h1, ← h2]; exact hcon.1, by rw [← hsim ia a ib b ea eb]; exact hcon.2⟩))
+    exact this.imp (fun {a b} hab va vb hva hvb => hab va vb hva hvb va vb rfl rfl)
+  · exact hR.pairwise (fun a b => b.2.wvalues ≤ a.2.wvalues) (pf_sorted P.sim hq).1
+
+/-! ### Non-vacuity: a concrete admissible history
+
+Class table and heap of `C16.Ex`; the individual at oid 1 is shown, then re-evaluated in place
+(`wvalues` 2 → 9) and edited in place (genome `[5, 6]` → `[7]`), then shown again. -/
+
+/-- All hypotheses of the heap-level theorems hold together for `C08H.Ex`. -/
+example : SimErase C08H.Ex.P.sim ∧ CTOk C08H.Ex.P.ct ∧ Closed C16.Ex.heap 3 ∧
+    Valid C08H.Ex.P false (emptyH 2 C16.Ex.heap 3) C08H.Ex.evs :=
+  ⟨C08H.Ex.simErase, C16.Ex.ct_ok, C16.Ex.heap_closed, C08H.Ex.valid false⟩
+
+/-- The run: the first `update` copies the individual to oid 3 and its fitness to oid 4, the second one (after
+the in-place changes) copies it to 5 and 6; the new member is better (9 > 2) and goes first; the log holds the
+two ranges; the key objects 4 and 6 are the members' own fitness objects. -/
+example : (runH C08H.Ex.P false (emptyH 2 C16.Ex.heap 3) C08H.Ex.evs).map
+      (fun s => (s.items, s.keys, s.log, s.next)) = some ([5, 3], [4, 6], [(3, 5), (5, 7)], 7) := by
+  decide
+
+/-- The first member still has the genome `[5, 6]` and the fitness `[2]` it was shown with, although the
+submitted object now has the genome `[7]` and the fitness `[9]`. -/
+example : (runH C08H.Ex.P false (emptyH 2 C16.Ex.heap 3) C08H.Ex.evs).map
+      (fun s => (s.objs 3, s.objs 4, s.objs 1, s.objs 2)) =
+    some (some ⟨1, [.atom 5, .atom 6], [(1, .ref 4)], true⟩, some ⟨0, [.atom 2], [], true⟩,
+      some ⟨1, [.atom 7], [(1, .ref 2)], true⟩, some ⟨0, [.atom 9], [], true⟩) := by
+  decide
+
+/-- Instance of the hypotheses of `heap_never_raises` / `heap_hof_order` / `heap_members_shown` /
+`hof_members_fresh` (capacity 2 ≥ 1, the admissible history, the run it yields). -/
+example : ∃ s, runH C08H.Ex.P false (emptyH 2 C16.Ex.heap 3) C08H.Ex.evs = some s ∧ s.items.length ≤ 2 := by
+  obtain ⟨s, hs⟩ := heap_never_raises (pf := false) C08H.Ex.simErase C16.Ex.ct_ok C16.Ex.heap_closed
+    (fun _ => by decide) (C08H.Ex.valid false)
+  exact ⟨s, hs, (heap_hof_order C08H.Ex.simErase C16.Ex.ct_ok C16.Ex.heap_closed (by decide)
+    (C08H.Ex.valid false) hs).1⟩
+
+/-- Instance of the hypotheses of `archive_unaffected_by_writes` / `hof_unaffected_by_writes`: the history
+split after the first `update`; the continuation starts with two writes of the caller (`CallerOnly`) and
+goes on with a further `update`. -/
+example : ∃ s s₂, runH C08H.Ex.P false (emptyH 2 C16.Ex.heap 3) (C08H.Ex.evs.take 1) = some s ∧
+    runH C08H.Ex.P false s (C08H.Ex.evs.drop 1) = some s₂ ∧
+    Valid C08H.Ex.P false (emptyH 2 C16.Ex.heap 3) (C08H.Ex.evs.take 1 ++ C08H.Ex.evs.drop 1) ∧
+    CallerOnly ((C08H.Ex.evs.drop 1).take 2) := by
+  have hv : Valid C08H.Ex.P false (emptyH 2 C16.Ex.heap 3) (C08H.Ex.evs.take 1 ++ C08H.Ex.evs.drop 1) :=
+    C08H.Ex.valid false
+  obtain ⟨s, h1⟩ := heap_never_raises (pf := false) C08H.Ex.simErase C16.Ex.ct_ok C16.Ex.heap_closed
+    (fun _ => by decide) hv.left
+  obtain ⟨s2, h2⟩ := heap_never_raises (pf := false) C08H.Ex.simErase C16.Ex.ct_ok C16.Ex.heap_closed
+    (fun _ => by decide) hv
+  rw [runH_append, h1] at h2
+  exact ⟨s, s2, h1, h2, hv, trivial⟩
+
+/-- Instance of the hypotheses of `heap_hof_best_of_seen` (the reading's hypotheses on the history the archive
+saw), and its conclusion. -/
+example : ∃ s, runH C08H.Ex.P false (emptyH 2 C16.Ex.heap 3) C08H.Ex.evs = some s ∧
+    SimHyp C08H.Ex.P.sim (histOf C08H.Ex.P false (emptyH 2 C16.Ex.heap 3) C08H.Ex.evs).flatten ∧
+    ∀ v ∈ (histOf C08H.Ex.P false (emptyH 2 C16.Ex.heap 3) C08H.Ex.evs).flatten,
+      (∃ x ∈ s.items, ∃ vx, viewInd C08H.Ex.P s.objs x = some vx ∧ C08H.Ex.P.sim v vx = true) ∨
+      (s.items.length = 2 ∧ ∀ w, s.items.getLast? = some w →
+        ∀ vw, viewInd C08H.Ex.P s.objs w = some vw → ¬ (vw.fit.wvalues < v.fit.wvalues)) := by
+  obtain ⟨s, hr⟩ := heap_never_raises (pf := false) C08H.Ex.simErase C16.Ex.ct_ok C16.Ex.heap_closed
+    (fun _ => by decide) (C08H.Ex.valid false)
+  exact ⟨s, hr, C08H.Ex.simHyp _, heap_hof_best_of_seen C16.Ex.ct_ok C16.Ex.heap_closed (by decide)
+    (C08H.Ex.valid false) (C08H.Ex.simHyp _) hr⟩
+
+/-- Instance of the hypotheses of `heap_pf_exact` / `pf_members_fresh` / `pf_unaffected_by_writes` (the same
+history shown to a Pareto archive; one objective), and the order clause of the conclusion. -/
+example : ∃ s, runH C08H.Ex.P true (emptyH 2 C16.Ex.heap 3) C08H.Ex.evs = some s ∧
+    PfHyp C08H.Ex.P.sim 1 (histOf C08H.Ex.P true (emptyH 2 C16.Ex.heap 3) C08H.Ex.evs).flatten ∧
+    s.items.Pairwise (fun a b => ∀ va vb, viewInd C08H.Ex.P s.objs a = some va →
+      viewInd C08H.Ex.P s.objs b = some vb → vb.fit.wvalues ≤ va.fit.wvalues) := by
+  obtain ⟨s, hr⟩ := heap_never_raises (pf := true) C08H.Ex.simErase C16.Ex.ct_ok C16.Ex.heap_closed
+    (fun h => by cases h) (C08H.Ex.valid true)
+  exact ⟨s, hr, C08H.Ex.pfHyp true, (heap_pf_exact C16.Ex.ct_ok C16.Ex.heap_closed (C08H.Ex.valid true)
+    (C08H.Ex.pfHyp true) hr).2.2.2⟩
+
+/-- The Pareto archive on the same history: the re-evaluated individual (9) dominates the old copy (2),
+which is removed; the member and the key are the objects of the second `deepcopy`. -/
+example : (runH C08H.Ex.P true (emptyH 2 C16.Ex.heap 3) C08H.Ex.evs).map
+      (fun s => (s.items, s.keys, s.log, s.next)) = some ([5], [6], [(3, 5), (5, 7)], 7) := by
+  decide
+
+end HeapLevel
 
 end C08
